@@ -752,8 +752,8 @@ class ExprMixin:
                                                   z3.And(0 <= sk(jj), sk(jj) < n, sub(P, sk(jj)), L.nth(out, jj) == sub(et, sk(jj)),
                                                          pos(sk(jj)) == jj)),
                                 patterns=[L.nth(out, jj)]))
-            st.assume(z3.ForAll([j], z3.Implies(z3.And(guard, P), z3.And(0 <= pos(j), pos(j) < m, L.nth(out, pos(j)) == et, sk(pos(j)) == j)),
-                                patterns=[L.nth(sv.term, j)]))
+            st.assume(_forall_pat([j], z3.Implies(z3.And(guard, P), z3.And(0 <= pos(j), pos(j) < m, L.nth(out, pos(j)) == et, sk(pos(j)) == j)),
+                                  [L.nth(sv.term, j)]))
             # order embedding
             j2 = L.fresh("q2", L.I)
             st.assume(z3.ForAll([jj, j2], z3.Implies(z3.And(0 <= jj, jj < j2, j2 < m), sk(jj) < sk(j2)), patterns=[z3.MultiPattern(sk(jj), sk(j2))]))
@@ -800,8 +800,7 @@ class ExprMixin:
         src_of = L.fresh_fn("dsrc", L.V, L.I)   # skolem: source index of a key of the result
         k = L.fresh("k")
         st.assume(L.is_dictlike(out))
-        st.assume(z3.ForAll([j], z3.Implies(z3.And(guard, P), z3.And(L.has(out, kv), L.get(out, kv) == vv)),
-                            patterns=[L.nth(sv.term, j)]))
+        st.assume(_forall_pat([j], z3.Implies(z3.And(guard, P), z3.And(L.has(out, kv), L.get(out, kv) == vv)), [L.nth(sv.term, j)]))
         sub = lambda e, idx: z3.substitute(e, (j, idx))
         st.assume(z3.ForAll([k], z3.Implies(L.has(out, k), z3.And(0 <= src_of(k), src_of(k) < n, sub(P, src_of(k)),
                                                                     sub(kv, src_of(k)) == k, L.get(out, k) == sub(vv, src_of(k)))),
@@ -814,6 +813,14 @@ class ExprMixin:
 
     def e_Starred(self, node):
         raise Unsupported("starred outside display")
+
+
+def _forall_pat(vs, body, pats):
+    """ForAll with the given trigger; when z3 rejects it (e.g. the source term simplifies to an ite/arith), let z3 choose."""
+    try:
+        return z3.ForAll(vs, body, patterns=pats)
+    except z3.Z3Exception:
+        return z3.ForAll(vs, body)
 
 
 def split_top(s):
